@@ -83,7 +83,7 @@ def run(F, R):
     R.count("reachable_bodies", len(reachable))
     R.floor("C14-R1", "bodies reachable from the entry points", len(reachable), 300)
     allow = json.load(open(os.path.join(facts.VERIF, "tables", "panic_allowlist.json")))["entries"]
-    allow_idx = {(e["body"], e["site"]): e for e in allow if e.get("crate", "omaha_client") == "omaha_client"}
+    allow_idx = {(e["site"], e["what"]): e for e in allow if e.get("crate", "omaha_client") == "omaha_client"}
 
     # environment for interval proofs: the attempt counter of the check loop
     comps = smod.sccs(S, S.live)
@@ -131,6 +131,7 @@ def run(F, R):
     R.floor("C14-R1", "panic-capable sites", len(sites), 20)
     select_ok = _select_liveness(sm, Sr)
     nproved = nallow = 0
+    used_allow = set()
     for s_ in sites:
         bv = s_["bv"]
         desc = s_["desc"]
@@ -158,16 +159,17 @@ def run(F, R):
             nproved += 1
             R.holds("C14-R1", key, "proved: " + proof)
             continue
-        e = allow_idx.get((bv.name, "%s#%d" % (desc, s_["ord"])))
+        ak = (desc, census.site_what(W, bv, s_))
+        e = allow_idx.get(ak)
         if e:
+            used_allow.add(ak)
             nallow += 1
             R.holds("C14-R1", key, "allowlisted: " + e["reason"])
             continue
         R.violation("C14-R1", key, "panic-capable site %s in %s is neither proved safe nor allowlisted" % (desc, bv.name), s_["loc"])
     R.count("proved", nproved)
     R.count("allowlisted", nallow)
-    used = set((s_["bv"].name, "%s#%d" % (s_["desc"], s_["ord"])) for s_ in sites)
-    stale = [k for k in allow_idx if k not in used]
+    stale = [k for k in allow_idx if k not in used_allow]
     R.check("C14-R1", "allowlist-not-stale", not stale, "every allowlist entry names an existing site", "allowlist entries without a site: %s" % stale)
 
     # ---------------------------------------------------------------- R2 storage-result discipline
